@@ -4,8 +4,10 @@ import driver
 
 def run(ctx):
     b = ctx.build("internal/zzverif/c06")
-    n = 1 if ctx.replay else 16
-    ctx.run_shards(b, "TestVerifC06", n, 600 if ctx.tier == "quick" else 3000, "c06")
+    if ctx.replay:
+        ctx.run_shards(b, "TestVerifC06", 1, 600, "c06")
+    else:
+        driver.run_scaled(ctx, b, "TestVerifC06", 16, 3000, "c06")
     if ctx.tier == "thorough" and not ctx.replay:
         br = ctx.build("internal/zzverif/c06", race=True)
         ctx.run_shards(br, "TestVerifC06", 16, 3000, "c06race", extra_env={"VERIF_TIER": "quick"}, race=True)
